@@ -414,4 +414,15 @@ theorem C02_dispatch_generated (D : Desc) (s : St) :
     commandFound D s = Gen.command_found D (s.chkUb s.cmd.isSome) ∧ commandNotFound D s = Gen.command_not_found D s :=
   ⟨commandFound_generated D s, commandNotFound_generated D s⟩
 
+/-- the two loops of name resolution — one step of the sweep that updates every entry's match state
+for a typed character, one step of the search for the selected entry — are, in the model, the
+text regenerated from `update_command` and `search_command` of the source (translator item T11:
+locals, lane accessor calls, else-if chains, the pre-increment inside a condition, early returns);
+the model's ghost check "the cursor is inside the table" aside.  `C02_sweep` and `C02_search` are
+theorems about exactly these functions. -/
+theorem C02_loops_generated (D : Desc) (s : St) :
+    updateCommand D s = Gen.update_command D (s.chkUb (decide (s.index < D.commandsNum))) ∧
+    searchCommand D s = Gen.search_command D (s.chkUb (decide (s.index < D.commandsNum))) :=
+  ⟨updateCommand_generated D s, searchCommand_generated D s⟩
+
 end Cat
